@@ -1,7 +1,7 @@
 """C51 — CSV parsing and writing follow the documented format (DESIGN §6 C51).
 
 Parse side: every table of <= 2 rows x <= 2 columns over a field alphabet
-(empty, plain, embedded separator / quote / LF / CRLF, padded, numeric,
+(empty, plain, embedded separator / quote / LF / CRLF / bare CR, padded, numeric,
 numeric-looking string, non-ASCII) is rendered by an RFC 4180 writer in five
 text forms (LF/CRLF, with/without final line end, minimal/always quoting) x
 four option sets (separator , ; TAB, header on/off) and parsed with
@@ -22,7 +22,7 @@ LEVEL = "exploration"
 ENGINE = "PEX"
 TECHNIQUE = "bounded exhaustive input sweep against an RFC 4180 reader/writer model mapped to the documented frame/2 term"
 LEVEL_TEXT = "exhaustive enumeration of small tables x text forms x documented options, both directions (write goes through a real file)"
-RULE = ("tables: 1x1, 1x2, 2x1 over 15 fields, 2x2 over 7 (quick) / 11 (thorough) fields; parse: x 5 text forms x 4 option sets; "
+RULE = ("tables: 1x1, 1x2, 2x1 over 20 fields (5 of them with a bare CR at the start / middle / end), 2x2 over 8 (quick) / 11 (thorough) fields; parse: x 5 text forms x 4 option sets; "
         "write: x 6 option sets for string/number/[] fields and for atom fields; invalid texts: unterminated quotes. "
         "Non-trivial: some field needs quoting (separator, quote, line break), is numeric-looking, or is empty.")
 ASSUMPTIONS = ["RFC 4180 with LF accepted as a record end; an unquoted field that is canonical Prolog number syntax denotes that number "
@@ -32,9 +32,11 @@ MIN_OUTCOMES = 4
 
 # field alphabet: (kind, value). kind 'str' (value python str, may be empty = []), 'num' (value int/float)
 FIELDS_FULL = [("str", ""), ("str", "a"), ("str", "a b"), ("str", "a,b"), ("str", 'a"b'), ("str", '"'), ("str", "a\nb"), ("str", "a\r\nb"),
-               ("str", " a "), ("num", 12), ("num", 1.5), ("str", "é"), ("str", ";"), ("str", "12"), ("num", -3)]
-FIELDS_MID = [f for f in FIELDS_FULL if f not in (("str", "a b"), ("str", ";"), ("num", -3), ("str", "é"))]
-FIELDS_SMALL = [("str", ""), ("str", "a"), ("str", "a,b"), ("str", 'a"b'), ("str", "a\nb"), ("num", 12), ("str", " a ")]
+               ("str", " a "), ("num", 12), ("num", 1.5), ("str", "é"), ("str", ";"), ("str", "12"), ("num", -3),
+               ("str", "\ra"), ("str", "a\rb"), ("str", "tail\r"), ("str", "a\r b\rc"), ("str", "\r")]
+FIELDS_MID = [("str", ""), ("str", "a"), ("str", "a,b"), ("str", 'a"b'), ("str", "a\nb"), ("str", "a\r\nb"), ("str", " a "),
+              ("num", 12), ("str", "12"), ("str", "a\rb"), ("str", "tail\r")]
+FIELDS_SMALL = [("str", ""), ("str", "a"), ("str", "a,b"), ("str", 'a"b'), ("str", "a\nb"), ("num", 12), ("str", " a "), ("str", "a\rb")]
 
 FORMS = [("\n", True, False), ("\r\n", True, False), ("\n", False, False), ("\r\n", False, True), ("\n", True, True)]
 POPTS = [(",", True), (";", True), ("\t", False), (",", False)]
@@ -266,13 +268,15 @@ def table_class(table, sep):
                 cls.add("quote")
             elif sep in v:
                 cls.add("sep")
-            elif "\n" in v or "\r" in v:
+            elif "\n" in v:
                 cls.add("newline")
+            elif "\r" in v:
+                cls.add("bare_cr")
             elif looks_numeric(v):
                 cls.add("numeric_string")
             else:
                 cls.add("plain")
-    for c in ("quote", "sep", "newline", "numeric_string", "plain", "empty", "num"):
+    for c in ("quote", "sep", "newline", "bare_cr", "numeric_string", "plain", "empty", "num"):
         if c in cls:
             return c
     return "none"
